@@ -82,6 +82,7 @@ Print Assumptions C08_chain_ranges_nested.
    all_samples_good of C08_ranges_invariant_binary64, one step at a time ---- *)
 From Flocq Require Import Core BinarySingleNaN PrimFloat.
 From PV Require Import proofs.FloatFacts proofs.SampleFloat.
+From PV Require Import gen.GenFns proofs.SourceFacts.
 
 Theorem C08_F_sample_finite :
   forall (h : handle NumF) (v step g : F), ffin v -> ffin step -> ffin g -> ffin (h_min NumF h)
@@ -90,4 +91,21 @@ Theorem C08_F_sample_finite :
     = false.
 Proof. exact F_sample_finite. Qed.
 Print Assumptions C08_F_sample_finite.
+
+
+Theorem C08_clamp_is_source :
+  forall (NN : Num) (lo hi x : carrier NN), gen_clamp NN lo hi x = nclamp lo hi x.
+Proof. exact clamp_is_source. Qed.
+Print Assumptions C08_clamp_is_source.
+
+Theorem C08_sample_is_source :
+  forall (NN : Num) (h : handle NN) (v step g : carrier NN), gen_sample NN (h_min NN h) (h_max
+    NN h) v step g = sample NN h v step g.
+Proof. exact sample_is_source. Qed.
+Print Assumptions C08_sample_is_source.
+
+Theorem C08_source_translated :
+  gen_fns_problem = ""%string.
+Proof. exact source_translated. Qed.
+Print Assumptions C08_source_translated.
 
